@@ -6,7 +6,9 @@ import (
 	"fmt"
 	"os"
 	"path/filepath"
+	"strings"
 	"sync"
+	"sync/atomic"
 	"time"
 
 	"github.com/attestantio/dirk/core"
@@ -22,6 +24,8 @@ import (
 	nd "github.com/wealdtech/go-eth2-wallet-nd/v2"
 	scratch "github.com/wealdtech/go-eth2-wallet-store-scratch"
 	e2wtypes "github.com/wealdtech/go-eth2-wallet-types/v2"
+	"google.golang.org/grpc/codes"
+	"google.golang.org/grpc/status"
 )
 
 // Msg is one key-generation protocol message travelling through the routing sender.
@@ -183,6 +187,27 @@ type RouteSender struct {
 
 var errLost = errors.New("message lost")
 
+// HandlerPanics counts panics raised by a receiver handler while it served a routed message.  The routing sender
+// stands where the recipient's gRPC server stands in a deployment; what a server does with a handler panic (die, or
+// answer Internal) is decided on the real daemon by the wire slices, so here the panic is recorded and the sender
+// sees an error, and the verdict on crashes is left to those slices.
+var HandlerPanics atomic.Int64
+
+// LastHandlerPanic describes the most recent one.
+var LastHandlerPanic atomic.Value
+
+// Safely runs a handler invocation the way a server with a recovery interceptor would.
+func Safely(f func() error) (err error) {
+	defer func() {
+		if p := recover(); p != nil {
+			HandlerPanics.Add(1)
+			LastHandlerPanic.Store(strings.SplitN(fmt.Sprint(p), "\n", 2)[0])
+			err = status.Error(codes.Internal, "handler panicked")
+		}
+	}()
+	return f()
+}
+
 func (s *RouteSender) deliver(m *Msg) (*Instance, Action, error) {
 	s.c.mu.Lock()
 	s.c.seq++
@@ -217,8 +242,10 @@ func (s *RouteSender) Prepare(_ context.Context, recipient *core.Endpoint, accou
 		for _, p := range m.Participants {
 			req.Participants = append(req.Participants, &pb.Endpoint{Id: p.ID, Name: p.Name, Port: p.Port})
 		}
-		_, err := to.Stack.ReceiverH.Prepare(PeerCtx(s.from.Name), req)
-		return err
+		return Safely(func() error {
+			_, err := to.Stack.ReceiverH.Prepare(PeerCtx(s.from.Name), req)
+			return err
+		})
 	}
 	err = do()
 	if act.Duplicate {
@@ -236,9 +263,15 @@ func (s *RouteSender) Execute(_ context.Context, recipient *core.Endpoint, accou
 	if err != nil {
 		return err
 	}
-	_, err = to.Stack.ReceiverH.Execute(PeerCtx(s.from.Name), &pb.ExecuteRequest{Account: m.Account})
+	exec := func() error {
+		return Safely(func() error {
+			_, err := to.Stack.ReceiverH.Execute(PeerCtx(s.from.Name), &pb.ExecuteRequest{Account: m.Account})
+			return err
+		})
+	}
+	err = exec()
 	if act.Duplicate {
-		_, err = to.Stack.ReceiverH.Execute(PeerCtx(s.from.Name), &pb.ExecuteRequest{Account: m.Account})
+		err = exec()
 	}
 	if act.ErrorReply {
 		return errors.New("injected error reply")
@@ -252,7 +285,12 @@ func (s *RouteSender) Commit(_ context.Context, recipient *core.Endpoint, accoun
 	if err != nil {
 		return nil, nil, err
 	}
-	res, err := to.Stack.ReceiverH.Commit(PeerCtx(s.from.Name), &pb.CommitRequest{Account: m.Account, ConfirmationData: m.Confirmation})
+	var res *pb.CommitResponse
+	err = Safely(func() error {
+		var err error
+		res, err = to.Stack.ReceiverH.Commit(PeerCtx(s.from.Name), &pb.CommitRequest{Account: m.Account, ConfirmationData: m.Confirmation})
+		return err
+	})
 	if err != nil {
 		return nil, nil, err
 	}
@@ -272,8 +310,10 @@ func (s *RouteSender) Abort(_ context.Context, recipient *core.Endpoint, account
 	if err != nil {
 		return err
 	}
-	_, err = to.Stack.ReceiverH.Abort(PeerCtx(s.from.Name), &pb.AbortRequest{Account: m.Account})
-	return err
+	return Safely(func() error {
+		_, err := to.Stack.ReceiverH.Abort(PeerCtx(s.from.Name), &pb.AbortRequest{Account: m.Account})
+		return err
+	})
 }
 
 func (s *RouteSender) SendContribution(_ context.Context, recipient *core.Endpoint, account string, distributionSecret bls.SecretKey, verificationVector []bls.PublicKey) (bls.SecretKey, []bls.PublicKey, error) {
@@ -285,8 +325,13 @@ func (s *RouteSender) SendContribution(_ context.Context, recipient *core.Endpoi
 	if err != nil {
 		return bls.SecretKey{}, nil, err
 	}
-	do := func() (*pb.ContributeResponse, error) {
-		return to.Stack.ReceiverH.Contribute(PeerCtx(s.from.Name), &pb.ContributeRequest{Account: m.Account, Secret: m.Secret, VerificationVector: m.VVec})
+	do := func() (res *pb.ContributeResponse, err error) {
+		err = Safely(func() error {
+			var err error
+			res, err = to.Stack.ReceiverH.Contribute(PeerCtx(s.from.Name), &pb.ContributeRequest{Account: m.Account, Secret: m.Secret, VerificationVector: m.VVec})
+			return err
+		})
+		return res, err
 	}
 	res, err := do()
 	if act.Duplicate && err == nil {
